@@ -182,6 +182,12 @@ impl TkWorld {
                 let r = guarded(|| self.client().try_token_id());
                 self.fin(r, |v: &BytesN<32>| format!(" x{}", hex::encode(v.to_array())))
             }
+            "tk.upgrade_migrate" => {
+                let tk = self.tk.clone().unwrap();
+                let r = upgrade_migrate(&env, &tk, t[1]);
+                let _ = self.events();
+                r
+            }
             "tk.owner" => {
                 let r = guarded(|| self.client().try_owner());
                 self.fin(r, |v: &Address| format!(" {}", Addr::from_sdk(v).tok()))
